@@ -1,4 +1,4 @@
-package sim
+package choice
 
 import (
 	"fmt"
@@ -30,7 +30,7 @@ func splitmix(x *uint64) uint64 {
 	return z ^ (z >> 31)
 }
 
-func mixSeed(base uint64, prop string, trial uint64) uint64 {
+func MixSeed(base uint64, prop string, trial uint64) uint64 {
 	x := base*0x9e3779b97f4a7c15 + 0x1234567
 	for i := 0; i < len(prop); i++ {
 		x = (x ^ uint64(prop[i])) * 0x100000001b3
@@ -137,3 +137,6 @@ func (s *Stream) Perm(n int) []int {
 	}
 	return p
 }
+
+// SetSink makes the stream write every draw, unbuffered, to f (crash attribution re-runs).
+func (s *Stream) SetSink(f *os.File) { s.sink = f }
